@@ -127,7 +127,8 @@ PROPS = {
         "level": "other",
         "rules": [("DP", 8, has("unsmoothed_wmc", "evaluate")), ("CP", 10, has("fold", "bdd_fold_h", "BddPtr::low", "BddPtr::high")),
                   ("MS", 13, None), ("FS", 7, has("fold", "wmc", "assignment_weight", "bb_ub", "marginal_map")),
-                  ("SH", 3, has("SH5")), ("LAW", 55, None), ("LT", 1, has("WmcParams"))],
+                  ("SH", 3, has("SH5")), ("LAW", 55, None), ("LT", 1, has("WmcParams")),
+                  ("SP", 10, has("SP1")), ("NB", 33, None)],
         "explanation": "The generic count is the homomorphism Or->+, And->*, True->1, False->0, Lit->weight by polarity, and "
                        "evaluate encodes an assignment as (low=!b, high=b) (DP); the folds hand effective children to the "
                        "callback/recursion (CP on BddPtr::fold, bdd_fold_h, SddPtr::fold); the dual-polarity memo is written and "
